@@ -689,6 +689,11 @@ class Fxp():
             vdtype = type(val)
 
         elif isinstance(val, (np.ndarray, np.generic)):
+            if val.dtype == object:
+                # an array of Python numbers: its elements can differ in type, and casting all of them
+                # to the type of the first one (e.g. int) would truncate the others before rounding
+                val = np.array(val.tolist())
+
             if isinstance(val, object):
                 vdtype = type(val.item(0))
             else:
